@@ -41,6 +41,8 @@ def gen_c09_file(rnd):
     D = rnd.sample(WORDS, rnd.choice([2, 3]))
     if rnd.random() < 0.25:        # pattern text containing the OTHER quote character
         D[rnd.randrange(len(D))] = rnd.choice(["JOE'S", "MCDONALD'S", 'SIZE"L', "O'HARE"])
+    # a quarter of the files rank entirely at or below zero (low-priority catch-alls)
+    prios = [-10, -5, -1, -1, 0] if rnd.random() < 0.25 else [None, None, None, 50, 60, 40, 0, -5]
     rules = []
     qof = lambda w: '"' if "'" in w else ("'" if '"' in w else rnd.choice(['"', '"', '"', "'"]))     # a quote the word does not contain
     for i in range(rnd.choice([2, 3, 3, 4, 4, 5, 6, 8])):
@@ -63,7 +65,7 @@ def gen_c09_file(rnd):
                 atoms.append(rnd.choice([f'{q}{w}{q} in description', 'startswith({0}{1}{0})'.format(qof(D[0]), D[0]), gen_atom(rnd, [])]))
         atoms += rnd.sample(CONSTRAINTS, rnd.choice([0, 0, 1, 1, 2]))
         r = {'name': f'R{i}', 'match': ' and '.join(atoms), 'category': '', 'subcategory': '', 'merchant': '', 'tags': gen_tags(rnd),
-             'priority': rnd.choice([None, None, None, 50, 60, 40]), 'lets': [], 'fields': []}
+             'priority': rnd.choice(prios), 'lets': [], 'fields': []}
         if rnd.random() < 0.75:
             r['category'] = rnd.choice(CATS) + str(i)
         if rnd.random() < 0.5:
@@ -120,6 +122,17 @@ def gen_cases(seed, tier):
             for order in ((0, 1, 2), (2, 1, 0), (1, 0, 2)):
                 cases.append({'kind': 'rules', 'file': {'vars': [], 'tfs': [], 'rules': [rs[i] for i in order]},
                               'txns': [tx('COSTCO GAS #0123 KIRKLAND')]})
+    # corpus: every matching rule ranks at or below zero (negative priorities, the all-zero tuple), for category, subcategory
+    # and merchant separately, every order of the first two
+    for order in ((0, 1, 2), (1, 0, 2)):
+        rs = [blk('Small misc', 'amount < 20000', 'Misc', 'Small', prio=-10), blk('Kiosk', 'contains("KIOSK")', 'Snacks', 'Vending', prio=-5),
+              blk('Coffee', 'contains("STARBUCKS")', 'Food', 'Coffee')]
+        cases.append({'kind': 'rules', 'file': {'vars': [], 'tfs': [], 'rules': [rs[i] for i in order]},
+                      'txns': [tx('CORNER KIOSK 44'), tx('PARKING METER')]})
+        rs = [blk('Zero', 'true', 'Catchall', '', prio=0), blk('Zero too', 'is_any', 'Other', 'Sub', prio=0),
+              blk('Tag neg', 'contains("KIOSK")', '', 'Negsub', ['t'], prio=-3)]
+        cases.append({'kind': 'rules', 'file': {'vars': [('is_any', 'true')], 'tfs': [], 'rules': [rs[i] for i in order]},
+                      'txns': [tx('CORNER KIOSK 44'), tx('PARKING METER')]})
     # corpus: the SAME expression text under different priorities (the ranking is per rule, not per expression), every order
     for pa, pb in ((None, 60), (60, None), (40, 50), (50, 40)):
         cases.append({'kind': 'rules', 'file': {'vars': [], 'tfs': [], 'rules': [
